@@ -84,7 +84,9 @@ def model_join(rng):
         # a further table (or a second model) after the model
         if r.random() < 0.75:
             t3 = r.choice(['t2', 't3'])
-            frm += f' {r.choice(["JOIN", "LEFT JOIN"])} {HOME[t3]}.{t3} AS v ON t.id = v.id'
+            # ... joined on a column of the first table, or on a column of the model's output
+            on3 = r.choice(['t.id = v.id', 't.id = v.id', 'm.k = v.id', 'v.id = m.k', 'm.k = v.id AND t.a = v.id'])
+            frm += f' {r.choice(["JOIN", "LEFT JOIN"])} {HOME[t3]}.{t3} AS v ON {on3}'
         else:
             frm += ' JOIN proj.m2 AS m9'
     conj = []
